@@ -3,3 +3,7 @@ import GoLevel.Gen.Consts
 import GoLevel.Model.Bytes
 import GoLevel.Model.Key
 import GoLevel.Model.Filter
+import GoLevel.Model.LSM
+import GoLevel.Proofs.Bytes
+import GoLevel.Proofs.Key
+import GoLevel.Props.C15
